@@ -296,6 +296,10 @@ func (c *Variant) SetAsObject(value any) {
 		v, _ := c.value.(*Variant)
 		c.typ = v.typ
 		c.value = v.value
+		if v.typ == Array {
+			// Keep an own copy of the list instead of sharing the backing array
+			c.SetAsArray(v.AsArray())
+		}
 	default:
 		c.typ = Object
 	}
@@ -396,6 +400,10 @@ func (c *Variant) Assign(value *Variant) {
 	if value != nil {
 		c.typ = value.typ
 		c.value = value.value
+		if value.typ == Array {
+			// Keep an own copy of the list instead of sharing the backing array
+			c.SetAsArray(value.AsArray())
+		}
 	} else {
 		c.typ = Null
 		c.value = nil
